@@ -73,8 +73,28 @@ func GetCPUPlans(resourceInfo *types.NodeResourceInfo, originCPUMap types.CPUMap
 		numaCPUMap[numaNodeID][cpuID] = availableResource.CPUMap[cpuID]
 	}
 
+	// visit the numa nodes in a fixed order: the nodes holding the origin's cores first
+	// (a realloc stays on its numa node when it can), then by id
+	originNUMANodes := map[string]bool{}
+	for cpuID := range originCPUMap {
+		if numaNodeID, ok := resourceInfo.Capacity.NUMA[cpuID]; ok {
+			originNUMANodes[numaNodeID] = true
+		}
+	}
+	numaNodeIDs := make([]string, 0, len(numaCPUMap))
+	for numaNodeID := range numaCPUMap {
+		numaNodeIDs = append(numaNodeIDs, numaNodeID)
+	}
+	sort.Slice(numaNodeIDs, func(i, j int) bool {
+		if originNUMANodes[numaNodeIDs[i]] != originNUMANodes[numaNodeIDs[j]] {
+			return originNUMANodes[numaNodeIDs[i]]
+		}
+		return numaNodeIDs[i] < numaNodeIDs[j]
+	})
+
 	// get cpu plan for each numa node
-	for numaNodeID, cpuMap := range numaCPUMap {
+	for _, numaNodeID := range numaNodeIDs {
+		cpuMap := numaCPUMap[numaNodeID]
 		// a plan on a numa node consumes the memory of the numa node and of the whole node
 		numaMemory := utils.Min(availableResource.NUMAMemory[numaNodeID], availableResource.Memory)
 		numaCPUPlans := doGetCPUPlans(originCPUMap, cpuMap, numaMemory, shareBase, maxFragmentCores, req.CPURequest, req.MemRequest)
